@@ -102,7 +102,7 @@ pub fn random_case(rng: &mut impl Rng) -> Value {
     let mk = |rng: &mut dyn rand::RngCore, prefix: &str, n: usize, chk: bool| -> Vec<Value> {
         (0..n)
             .map(|i| {
-                let order = [0u64, 1, 2, 5, 1000, 1000, 4_000_000_000][rand::Rng::gen_range(rng, 0..7)];
+                let order = [0u64, 1, 2, 5, 1000, 1000, 2_000_000_000][rand::Rng::gen_range(rng, 0..7)];
                 if chk {
                     let res = ["pass", "pass", "wait", "block"][rand::Rng::gen_range(rng, 0..4)];
                     json!({"name": format!("{}{}", prefix, i + 1), "order": order, "res": res, "bt": i + 1})
